@@ -415,3 +415,7 @@ S2("C08", "rename-new_text", HDP, r"\bnew_text\b", "assembled")
 S2("C07", "rename-rendered", HDP, r"\brendered\b", "body")
 S2("C13", "rename-number_of_files", RPT, r"\bnumber_of_files\b", "total")
 V("C02", "lone-cr-not-folded-again", "F", "R5", EXP, 'return result.replace("\\r\\n", "\\n").replace("\\r", "\\n")', 'return result.replace("\\r\\n", "\\n")')
+V("C07", "special-ending-eats-later", "F", "R7", EXP, "                        r\"\\]\\s*::\",\n", "                        r\"\\]\\s*::\",\n                        r\"-later\",\n")
+V("C02", "special-ending-eats-later", "F", "R8", EXP, "                        r\"\\]\\s*::\",\n", "                        r\"\\]\\s*::\",\n                        r\"-later\",\n")
+V("C07", "style-end-is-id-suffix", "F", "R7", R + "comment.py", '    MULTI_LINE = MultiLineSegments("{#", "", "#}")', '    MULTI_LINE = MultiLineSegments("{#", "", "-only")')
+V("C07", "tex-marker-in-copyright-prefix", "F", "R7", R + "comment.py", '    SHORTHAND = "semicolon"\n\n    SINGLE_LINE = ";"', '    SHORTHAND = "semicolon"\n\n    SINGLE_LINE = "Copyright"')
